@@ -20,6 +20,10 @@ CHECKS["C17"] = ("exploration", "5.C17", "simulated multi-connection histories a
   "The whole command table (extracted from the source) is walked systematically over run indices in five positions and four segmentation styles; replies, unsolicited bytes on the unauthenticated socket, dataset, subscriber and replica tables are checked. Finite catalogue covered completely every 5*ceil(|table|/12) runs; segmentations and wrong passwords sampled.")
 CHECKS["C20"] = ("exploration", "5.C20", "in-process simulation where the schedule is the chunking of the byte stream: exhaustive enumeration of short strings over the protocol alphabet under all split points, seeded generation beyond, allocator seam and panic capture",
   "All strings over a 21-symbol alphabet up to length 4 (quick) / 5 (thorough) are enumerated and fed under every single split point, byte-wise and in 3-way splits; frame trees of all RESP types are round-tripped; longer and mutated streams are sampled. The short-string part is exhaustive (evidence sets exhaustive=true when every slice ran), the rest is exploration.")
+CHECKS["C07"] = ("exploration", "5.C07", "multi-connection simulation: requests of several connections delivered before the same loop turn, exact execution order reconstructed from the transport seam, sequential refinement with whole EXEC batches as single steps",
+  "The simulator decides delivery order and segmentation of all connections; from the order of the server's reads it derives the exact order in which the single command thread executed every request, and checks every reply (each EXEC slot) and the dataset against the sequential model with per-connection transaction state. This is a linearizability check with the linearization point known from the seam instead of searched. Histories and interleavings are sampled.")
+CHECKS["C08"] = ("exploration", "5.C08", "systematic walk of a finite WATCH scenario catalogue (writer template x key state x route) inside the multi-connection simulation, plus clock-driven expiry and blocked-client routes and random multi-watcher histories",
+  "The catalogue of 50 writer templates x 8 key states x 10 routes is walked completely over run indices (evidence marks exhaustive when all rounds ran); the abort/no-abort verdict comes from the sequential model fed in the server's actual execution order. Expiry offsets, served blocking pops and random histories are sampled.")
 NOT_APPLICABLE = []
 def main():
     import json as _j
